@@ -807,7 +807,14 @@ func constantAlternative(v ssa.Value, depth int) (int64, bool) {
 			}
 		}
 	case *ssa.UnOp:
-		if a, isA := x.X.(*ssa.Alloc); isA && x.Op == token.MUL {
+		cell := x.X
+		if fv, isFV := cell.(*ssa.FreeVar); isFV {
+			// a variable of the enclosing function captured by the function literal
+			if b := ir.FreeVarBinding(fv); b != nil {
+				cell = b
+			}
+		}
+		if a, isA := cell.(*ssa.Alloc); isA && x.Op == token.MUL {
 			for _, r := range *a.Referrers() {
 				if st, isSt := r.(*ssa.Store); isSt && st.Addr == ssa.Value(a) {
 					if k, ok := constantAlternative(st.Val, depth+1); ok {
